@@ -266,7 +266,7 @@ fn parse_error_code(e: &ParseError) -> &'static str {
 fn cfg_error_code(e: &riscv_analysis::passes::CfgError) -> &'static str {
     use riscv_analysis::passes::CfgError as E;
     match e {
-        E::LabelsNotDefined(_) => "cfg:labels-not-defined",
+        E::LabelsNotDefined(..) => "cfg:labels-not-defined",
         E::DuplicateLabel(_) => "cfg:duplicate-label",
         E::MultipleLabelsForReturn(..) => "cfg:multiple-labels-for-return",
         E::NoLabelForReturn(_) => "cfg:no-label-for-return",
@@ -686,10 +686,21 @@ pub fn lint_with(files: &Files, faults: &[(String, Fault)]) -> Result<LintOut, P
                 items.push((DiagnosticItem::from(*e), code));
             }
         }
-        items.sort_by(|a, b| a.0.cmp(&b.0));
-        out.diags = items
+        // the library's own ordering / merging of identical items, with the codes re-attached
+        let mut shown: Vec<DiagnosticItem> = items.iter().map(|(d, _)| d.clone()).collect();
+        DiagnosticItem::sort_for_display(&mut shown, &p.reader);
+        out.diags = shown
             .iter()
-            .map(|(d, c)| diag_from_item(c, d, &p.reader))
+            .map(|d| {
+                let code = items
+                    .iter()
+                    .find(|(x, _)| {
+                        x.file == d.file && x.range == d.range && x.title == d.title && x.description == d.description
+                    })
+                    .map(|(_, c)| c.clone())
+                    .unwrap_or_default();
+                diag_from_item(&code, d, &p.reader)
+            })
             .collect();
         out
     })
